@@ -174,6 +174,13 @@ def build(world, shard):
         t.nodes["zip"] = node
         t.kind = "zip2"
         t.bound = ("zip", n)
+    elif name in ("zip_latest-direct", "combine_latest-direct"):
+        src2 = Stream(asynchronous=True)
+        t.sources.append(src2)
+        node = src.zip_latest(src2) if name.startswith("zip_latest") else src.combine_latest(src2)
+        sink(node)
+        t.kind = "join-direct"
+        t.buffering, t.direct = False, []
     elif name == "union-delay":
         src2 = Stream(asynchronous=True)
         t.sources.append(src2)
@@ -197,7 +204,8 @@ ALLOWED = (0, 1, 2, 3, 4, 9)
 
 def allowed_for(shard):
     a = [0, 2, 9]
-    if shard["template"] in ("zip-buffer-delay", "zip", "union-delay", "union", "zip3"):
+    if shard["template"] in ("zip-buffer-delay", "zip", "union-delay", "union", "zip3", "zip_latest-direct",
+                             "combine_latest-direct"):
         a.append(1)
     if shard["template"] == "zip3":
         a.append(6)
@@ -281,6 +289,10 @@ def _run(shard, cs, with_ref, nmd, after_step, r):
             world.complete(p[0], exc=JobFailed("boom"))
             return True
         try:
+            if shard.get("prefix"):
+                # a concrete prefix (reaches a deep state), then the symbolic schedule
+                run_schedule(world, list(shard["prefix"]), r.producers, extra=extra, after_step=step_hook,
+                             allowed=tuple(range(10)), fine=shard.get("fine", False))
             run_schedule(world, cs, r.producers, extra=extra, after_step=step_hook,
                          allowed=allowed_for(shard), fine=shard.get("fine", False))
         except Pruned:
@@ -294,6 +306,8 @@ def _run(shard, cs, with_ref, nmd, after_step, r):
 
 def expected_total(r):
     t = r.t
+    if t.kind == "join-direct":
+        return len(r.world.delivered.get("k", []))
     if t.kind == "linear":
         return len(t.skeleton(r.producers[0].items[:r.producers[0].i]))
     if t.kind == "zip2":
